@@ -213,8 +213,28 @@ fn io_codes(r: &io::Result<()>) -> (u128, u128) {
 }
 
 /// fault: args [kind, seed, size, bs, op, fobj, fk_plus_1, fkind, okind, q...]
-///  -> [rc, payload, nlog, (obj, a, b)*]
+///  -> [rc, payload, nlog, (obj, a, b)*, nfree, (obj, a, b)*]: the run with the fault, then the call log of the same
+///     operation run without a fault (the reference the faulted run is compared with)
 pub fn fault(a: &[u128]) -> Vec<u128> {
+    let mut r1 = fault_once(a);
+    if r1.len() < 3 {
+        return r1;
+    }
+    let r0 = if a[6] == 0 {
+        r1.clone()
+    } else {
+        let mut b = a.to_vec();
+        b[6] = 0;
+        match std::panic::catch_unwind(std::panic::AssertUnwindSafe(|| fault_once(&b))) {
+            Ok(v) => v,
+            Err(_) => vec![crate::PANIC, 0, 0],
+        }
+    };
+    r1.extend_from_slice(&r0[2..]);
+    r1
+}
+
+fn fault_once(a: &[u128]) -> Vec<u128> {
     let data = gen_data(a[0] as u64, a[1] as u64, a[2] as usize);
     let bs = a[3] as u8;
     let op = a[4];
